@@ -1014,17 +1014,18 @@ def c04(v):
 # parsing: SpellGen (spec -> impl)
 # --------------------------------------------------------------------------
 DATE_PICS_FULL = ["YYYY-MM-DD", "DD/MM/YYYY", "YYYYMMDD", "Dy, DD Mon YYYY", "DAY DD MONTH YYYY", "YYYY-DDD", "DDD/YYYY",
+                  "YYYY DDD DY", "DAY, YYYY/DDD", "D DDD YYYY",
                   "YYYY-MM-DD DDD", "D YYYY.MM.DD", "MON DD, YYYY", "dd\\mm\\yyyy", "YYYY;MM;DD Day", "Month DD YYYY",
                   "yyyy mon dd dy", "DD-MM-YYYY D DDD", "YYYY MM DDD", "DD DDD YYYY"]
 DATE_PICS_PART = ["", " ", "DD", "MM", "MM-DD", "YY-MM-DD", "Y-MM-DD", "YYY-MM-DD", "YYYY", "YYYY-MM", "MON", "DDD", "YY DDD",
                   "YYYY DD", "DD MON YY", "Dy DD", "YYY DDD", "Y", "MONTH YYYY", "DD MM"]
 TIME_PICS = ["HH24:MI:SS.FF6", "HH24:MI:SS.FF", "HH24MISS", "HH12:MI:SS AM", "HH:MI:SS.FF3 P.M.", "AM HH12.MI.SS.FF9", "HH24:MI",
              "HH24", "MI:SS", "SS.FF2", "HH12 a.m.", "FF", "HH24:MI:SS.FF7", "hh24-mi-ss", "HH24:MI:SS.FF1", "HH12:MI pm"]
-TS_PICS = ["YYYY-MM-DD HH24:MI:SS.FF6", "YYYY-MM-DDTHH24:MI:SS.FF", "DD/MM/YYYY HH12:MI:SS.FF7 PM", "Dy Mon DD HH24:MI:SS YYYY",
+TS_PICS = ["YYYY-MM-DD HH24:MI:SS.FF6", "YYYY-MM-DDTHH24:MI:SS.FF", "Day DDD YYYY HH24:MI:SS.FF6", "YYYY-DDD Dy HH:MI:SS.FF AM", "DD/MM/YYYY HH12:MI:SS.FF7 PM", "Dy Mon DD HH24:MI:SS YYYY",
            "YYYYMMDDHH24MISSFF6", "YYYY-DDD HH24.MI.SS,FF9", "HH24:MI:SS DD-MON-YYYY", "DD-MON-YY HH:MI A.M.", "YYYY-MM-DD",
            "MM-DD HH24", "YYYY-MM-DD HH12 AM", "YYYY-MM-DD HH24:MI:SS.FF3", "Day, DD Month YYYY HH12:MI:SS.FF am", "HH24:MI",
            "YY-MM-DD HH24:MI:SS", "YYYY/MM/DD HH24:MI:SS.FF8"]
-OD_PICS = ["YYYY-MM-DD HH24:MI:SS", "DD/MM/YYYY HH12:MI:SS PM", "YYYYMMDDHH24MISS", "Dy Mon DD HH24:MI:SS YYYY", "YYYY-DDD HH24.MI.SS",
+OD_PICS = ["YYYY-MM-DD HH24:MI:SS", "DD/MM/YYYY HH12:MI:SS PM", "YYYY-DDD Dy HH:MI:SS AM", "D DDD YYYY HH24:MI:SS", "YYYYMMDDHH24MISS", "Dy Mon DD HH24:MI:SS YYYY", "YYYY-DDD HH24.MI.SS",
            "YYYY-MM-DD", "DD-MON-YY HH:MI A.M.", "MM-DD HH24", "HH24:MI", "YYYY-MM-DDTHH24:MI:SS"]
 YM_PICS = ["YYYY-MM", "YY-MM", "Y MM", "YYYY", "MM", "YYYY/MM", "YYYY MM", "YYY;MM"]
 DT_PICS = ["DD HH24:MI:SS.FF6", "DD HH24:MI:SS", "DD", "DD HH24", "HH24:MI:SS", "DD HH24:MI:SS.FF9", "DD HH24:MI:SS.FF7",
@@ -1351,6 +1352,22 @@ def c03(v):
         plan.append((ty + ".parse", [list("2007-04-05"), s_], ("nopanic",)))
         plan.append((ty + ".parse", [s_, s_], ("nopanic",)))
         plan.append((ty + ".format", [vals[ty], s_], ("nopanic",)))
+    # a valid beginning followed by a long tail with multi-byte characters at every byte offset
+    goodtexts = {"D": "2007-04-05", "T": "13:08:09.123456", "TS": "2007-04-05 13:08:09.123456", "OD": "2007-04-05 13:08:09",
+                 "YM": "+0001-05", "DT": "-02 22:59:59.999995"}
+    tailpics = {"D": ["YYYY-MM-DD", "YYYY/MM/DD", "YYYY,MM;DD", "YYYYTMM\\DD"], "T": ["HH24:MI:SS.FF6", "HH24;MI,SS"],
+                "TS": ["YYYY-MM-DD HH24:MI:SS.FF6", "YYYY/MM/DDTHH24;MI,SS"], "OD": ["YYYY-MM-DD HH24:MI:SS", "YYYY/MM/DD HH24,MI;SS"],
+                "YM": ["YYYY-MM", "YYYY/MM"], "DT": ["DD HH24:MI:SS.FF6", "DD/HH24,MI;SS"]}
+    mb = ["#", "@", "$"]
+    for ty, good in goodtexts.items():
+        for pic in tailpics[ty]:
+            for cutlen in range(0, len(good) + 1, 2):
+                for pad in range(0, 5):
+                    for total in (40, 64, 70, 130):
+                        tail = ["x"] * pad
+                        while len(tail) < total:
+                            tail.append(mb[(len(tail) + cutlen) % 3])
+                        plan.append((ty + ".parse", [list(good[:cutlen]) + tail, list(pic)], ("nopanic",)))
     # SpellGen texts (lenient and perturbed) under both profiles
     sg = spellgen(v, "texts", spell_cases(v)[::2], chunks=10)
     for g in sg:
